@@ -48,8 +48,6 @@ PROBES = [
     '10 IF A = 1 THEN X = 1.5 ELSE IF A = 2 THEN X = &HF ELSE X = 1E2', '10 FOR I = 1 TO 2 STEP 1 : PRINT I : NEXT',
     '10 ON A + 1 GOTO 10 : ON B GOSUB 10', '10 HCOLOR 1 : HSCREEN 1 : HCLS 1 : CLS 1 : WIDTH 40', '10 RGB : CMP : PALETTE RGB',
     '10 A$ = "HELLO"\n20 PRINT "A  B" ; "  C  "\n30 B$ = "X  Y"', '10 LET Q$ ( 1 ) = "AB"\n20 REM  TWO  BLANKS\n30 DATA A  B , "C  D"',
-    # a literal that is spelled in code and in a DATA statement with an empty item (the tool rewrites DATA numbers in place)
-    '10 DATA -1,,2E1\n20 X=-1:Y=2E1', '10 X=25:DATA 25,,1E2\n20 Y=1E2:Z=25', '10 DATA 5,,7\n20 READ A,B,C\n30 SOUND 5,7:X=5+7',
     # a string literal without its closing quote at the end of a line, in every statement that takes one (PRINT is also spelled ?)
     '10 PRINT "HELLO', '10 IF A THEN PRINT "NO', '10 PRINT "A";B;"TOTAL  ', '10 PRINT @ 5, "X', '10 A = 1 : PRINT "Y', '10 PRINT A$;"',
     '10 HPRINT ( 1 , 2 ) , "HI', '10 PLAY "CDE', '10 HDRAW "U1', '10 INPUT "WHO', '10 LINE INPUT "L', '10 A$ = B$ + "X', '10 PRINT "A" : PRINT "B',
@@ -67,6 +65,10 @@ def base_programs(tier):
         progs.append((t, "test-program"))
     for _ in range(40 if tier != "thorough" else 400):
         progs.append((G.Gen(r, spaces=False).program(r.choice([2, 3, 5, 8])), "generated"))
+    # (added last, so that the draws of everything above stay what they were) a literal that is spelled in code and in a DATA
+    # statement with an empty item: the tool rewrites DATA numbers in place
+    for p in ['10 DATA -1,,2E1\n20 X=-1:Y=2E1', '10 X=25:DATA 25,,1E2\n20 Y=1E2:Z=25', '10 DATA 5,,7\n20 READ A,B,C\n30 SOUND 5,7:X=5+7']:
+        progs.append((p, "probe"))
     return r, progs
 
 
@@ -109,10 +111,16 @@ def variants(r, lines, tier, kind0):
     add("cr", L.render_program(lines, eol="\r"))
     add("nofinal", L.render_program(lines, final=False))
     add("nul", base + "\0")
-    for _ in range(8 if kind0 == "probe" else 1):        # a probe gets (nearly) every one of its literals spelled with a blank
-        nb = L.number_blanks(lines, r, False)
-        if nb:
-            add("numblank", L.render_program(nb[0]), f"{nb[1]!r} spelled {nb[2]!r}")
+    nb = L.number_blanks(lines, r, False)
+    if nb:
+        add("numblank", L.render_program(nb[0]), f"{nb[1]!r} spelled {nb[2]!r}")
+    if kind0 == "probe":        # a probe gets (nearly) every one of its literals spelled with a blank - from a stream of its own
+        import random as _random
+        r_own = _random.Random(len(base) * 7919 + sum(map(ord, base)))
+        for _ in range(7):
+            nb = L.number_blanks(lines, r_own, False)
+            if nb:
+                add("numblank", L.render_program(nb[0]), f"{nb[1]!r} spelled {nb[2]!r}")
     nb = L.number_blanks(lines, r, True)
     if nb:
         add("digitblank", L.render_program(nb[0]), f"{nb[1]!r} spelled {nb[2]!r}")
